@@ -535,7 +535,10 @@ def main():
                 passes.append('B')
             for cp in passes:
                 rc = verify_unit(u, a.repo, canary=cp)
-                if rc.undecided:
+                # In a canary run every planted `assert(false)` must be REPORTED AS FAILED; what the solver does with the rest of a
+                # function after such a failure (it goes on under the assumption `false` was true elsewhere, and may run out of
+                # its resource limit) says nothing.  A resource limit in a canary run is therefore not an answer of its own.
+                if rc.undecided and not rc.undecided.startswith('solver limit'):
                     undecided.append('%s (canary run %s): %s' % (u, cp, rc.undecided))
                     continue
                 path = os.path.join(bdir(a.repo, 'gen'), u + '_canary' + cp + '.rs.map.json')
